@@ -75,6 +75,12 @@ var compNames = map[int64]string{
 	compLB: "gcc-leakybucket", compPC: "pacing", compHIST: "rtpfb-history",
 }
 
+var setNames = map[int64]string{
+	compRL: "c12rl", compRS: "c12rs", compRB: "c12rb", compNG: "c12ng", compAM: "c12am", compLRU: "c12lru",
+	compSL: "c12sl", compSR: "c12sr", compSI: "c12si", compJB: "c12jb", compFF: "c12ff", compRC: "c12rc",
+	compLB: "c12lb", compPC: "c12pc", compHIST: "c12hist",
+}
+
 var (
 	failMu sync.Mutex
 	fails  []cq.ImplFailure
@@ -262,15 +268,23 @@ func seqCase(r *rand.Rand, comp int64, cfg []int64, kind string, n, phases int, 
 func main() {
 	o := cq.ParseFlags()
 	r := o.Rand()
-	set := &cq.Set{
-		Name: "c12", Import: "IV.Check.C12Check", CaseType: "Z * list Z * list (Z * list Z * list Z)",
-		Checks: []string{"c12_mismatches", "c12_spec_failures"},
+	// one case set (one Coq shard family) per component, all with the same checkers
+	sets := map[int64]*cq.Set{}
+	var order []*cq.Set
+	for comp := int64(1); comp <= compHIST; comp++ {
+		sets[comp] = &cq.Set{
+			Name: setNames[comp], Import: "IV.Check.C12Check", CaseType: "Z * list Z * list (Z * list Z * list Z)",
+			Checks: []string{"c12_mismatches", "c12_spec_failures"},
+		}
+		order = append(order, sets[comp])
 	}
 	if o.Replay != "" {
 		var c c12Case
 		cq.LoadReplay(o.Replay, &c)
-		set.Cases = append(set.Cases, run(c).toCase("replay"))
-		cq.Write(o, "replay", []*cq.Set{set}, nil, fails)
+		if st, ok := sets[c.Comp]; ok {
+			st.Cases = append(st.Cases, run(c).toCase("replay"))
+		}
+		cq.Write(o, "replay", order, nil, fails)
 
 		return
 	}
@@ -302,7 +316,9 @@ func main() {
 	}
 	wg.Wait()
 	for i, c := range results {
-		set.Cases = append(set.Cases, c.toCase(buckets[i]...))
+		if st, ok := sets[c.Comp]; ok {
+			st.Cases = append(st.Cases, c.toCase(buckets[i]...))
+		}
 	}
 	extra := map[string]interface{}{
 		"claim": "entry counts of the retained containers (not heap bytes); collectability after Unbind/Close not modelled",
@@ -310,7 +326,7 @@ func main() {
 	if o.Tier == "thorough" {
 		extra["long_runs"] = longRuns(o, r)
 	}
-	cq.Write(o, "history of >= 10 operations over >= 2 phases", []*cq.Set{set}, extra, fails)
+	cq.Write(o, "history of >= 10 operations over >= 2 phases", order, extra, fails)
 }
 
 func generate(o *cq.Opts, r *rand.Rand, add func(c12Case, ...string)) {
